@@ -19,6 +19,7 @@ type calleeInfo struct {
 	tenv     map[string]types.Type
 	external bool
 	dflt     bool
+	funcValue bool
 }
 
 func (vc *VC) call(x *ssa.Call) {
@@ -41,6 +42,11 @@ func (vc *VC) call(x *ssa.Call) {
 			fv := vc.val(c.Value)
 			vc.safe("nil", not(eq(fv, "0")), x.Pos())
 		}
+	}
+	if info.funcValue && info.decl != nil {
+		// the contract of a function type names the function value as its first parameter
+		args = append(args, vc.val(c.Value))
+		argTypes = append(argTypes, c.Value.Type())
 	}
 	for _, a := range c.Args {
 		args = append(args, vc.val(a))
@@ -89,6 +95,7 @@ func (vc *VC) resolveCallee(c *ssa.CallCommon) *calleeInfo {
 	}
 	if fn == nil {
 		// call through a function value: contract of its named function type, if any
+		info.funcValue = true
 		if n, ok := types.Unalias(c.Value.Type()).(*types.Named); ok {
 			info.name = qual(n.Obj().Pkg()) + "." + n.Obj().Name()
 			info.pkg = n.Obj().Pkg()
@@ -156,19 +163,23 @@ func (vc *VC) applyContract(info *calleeInfo, args []Term, argTypes []types.Type
 	k := vc.callCount[info.name]
 	vc.callCount[info.name] = k + 1
 	site := fmt.Sprintf("%s#%d", info.name, k)
+	vc.curArgs = vc.argVars(args, argTypes)
+	defer func() { vc.curArgs = nil }()
 	// caller's own assertions / ghost code anchored before this call
 	for _, c := range vc.decl.Clauses {
-		if c.Callee == shortCallee(info.name) || c.Callee == info.name {
+		if calleeMatches(c.Callee, info.name) {
 			if c.CallK != k {
 				continue
 			}
 			switch {
 			case c.Kind == "assert":
+				vc.anchorUsed(c)
 				ctx := vc.ctx(vc.cur, vc.entry)
 				ctx.loopScope = pos
 				ctx.vars = vc.argVars(args, argTypes)
 				vc.oblige("assert", c.Label, ctx.formula(c.E), pos)
 			case c.Kind == "ghost" && c.Anchor == "before-call":
+				vc.anchorUsed(c)
 				vc.ghostBlockAt(c, pos, nil)
 			}
 		}
@@ -250,7 +261,8 @@ func (vc *VC) applyContract(info *calleeInfo, args []Term, argTypes []types.Type
 		}
 	}
 	for _, c := range vc.decl.Clauses {
-		if (c.Callee == shortCallee(info.name) || c.Callee == info.name) && c.CallK == k && c.Kind == "ghost" && c.Anchor == "after-call" {
+		if calleeMatches(c.Callee, info.name) && c.CallK == k && c.Kind == "ghost" && c.Anchor == "after-call" {
+			vc.anchorUsed(c)
 			vc.ghostBlockAtT(c, pos, results, resTypes)
 		}
 	}
@@ -263,6 +275,22 @@ func (vc *VC) argVars(args []Term, argTypes []types.Type) map[string]binding {
 		m[fmt.Sprintf("arg%d", i)] = binding{t: args[i], typ: goT(argTypes[i])}
 	}
 	return m
+}
+
+// calleeMatches: an anchor may name the callee in full ("container.(Stack).Push"), in short form or
+// by its bare function / method name ("Push").
+func calleeMatches(anchor, name string) bool {
+	if anchor == "" {
+		return false
+	}
+	return anchor == name || anchor == shortCallee(name) || strings.HasSuffix(name, "."+anchor)
+}
+
+func (vc *VC) anchorUsed(c *Clause) {
+	if vc.usedAnchors == nil {
+		vc.usedAnchors = map[*Clause]bool{}
+	}
+	vc.usedAnchors[c] = true
 }
 
 // shortCallee: "rand.(*Rand).Intn" style short names are accepted in assert/ghost anchors.
@@ -291,12 +319,19 @@ func (vc *VC) havocTarget(tg modTarget) {
 	if tg.whole {
 		vc.cur.comps[tg.comp] = vc.fresh(compPrefix(tg.comp), tg.sort)
 		vc.assumeCompValid(vc.cur.comps[tg.comp], tg.sort, false)
+		vc.assumeRefsValid(tg.comp, vc.cur.comps[tg.comp], vc.next(vc.cur), false)
 		return
 	}
 	// element sort of "(Array Int X)"
 	es := strings.TrimSuffix(strings.TrimPrefix(tg.sort, "(Array Int "), ")")
 	v := vc.fresh("hv", es)
 	vc.assumeCompValid(v, es, false)
+	switch vc.refComps[tg.comp] {
+	case 1:
+		vc.assume(app("<", v, vc.next(vc.cur)))
+	case 2:
+		vc.assume(fmt.Sprintf("(forall ((k Int)) (! (< (select %s k) %s) :pattern ((select %s k))))", v, vc.next(vc.cur), v))
+	}
 	vc.setComp(vc.cur, tg.comp, tg.sort, app("store", vc.comp(vc.cur, tg.comp, tg.sort), tg.ref, v))
 	if vc.tracked(tg.comp) {
 		ic := "I." + tg.comp
@@ -318,6 +353,9 @@ func (vc *VC) ghostBlockAt(c *Clause, pos token.Pos, results []Term) {
 func (vc *VC) ghostBlockAtT(c *Clause, pos token.Pos, results []Term, types []types.Type) {
 	ctx := vc.ctx(vc.cur, vc.entry)
 	ctx.loopScope = pos
+	for k, v := range vc.curArgs {
+		ctx.vars[k] = v
+	}
 	for i := range results {
 		if i < len(types) {
 			b := binding{t: results[i], typ: goT(types[i])}
@@ -378,6 +416,7 @@ func (vc *VC) builtin(x *ssa.Call, b *ssa.Builtin) {
 		defer func() {
 			for _, c := range vc.decl.Clauses {
 				if c.Callee == b.Name() && c.CallK == k && c.Kind == "ghost" && c.Anchor == "after-call" {
+					vc.anchorUsed(c)
 					if t, ok := vc.vals[x]; ok {
 						vc.ghostBlockAtT(c, x.Pos(), []Term{t}, []types.Type{x.Type()})
 					} else {
@@ -612,7 +651,16 @@ func (vc *VC) world() Term { return vc.comp(vc.cur, worldComp, vc.worldSort()) }
 
 func (vc *VC) chanFns() {
 	ws := vc.worldSort()
-	vc.reg.decl("ys.x.ready", fmt.Sprintf("(declare-fun ys.x.ready (%s Int) Bool)\n(declare-fun ys.x.recvErr (%s Int) ys.Iface)\n(declare-fun ys.x.recvW (%s Int) %s)", ws, ws, ws, ws))
+	vc.reg.decl("ys.x.ready", fmt.Sprintf("(declare-fun ys.x.ready (%s Int) Bool)\n(declare-fun ys.x.recvW (%s Int) %s)", ws, ws, ws))
+}
+
+// recvFn: the value a ready channel delivers, per element sort.
+func (vc *VC) recvFn(elem types.Type) string {
+	vc.chanFns()
+	s := vc.reg.sortOf(elem)
+	n := sym("ys.x.recv." + sanitizeFile(s))
+	vc.reg.decl(n, fmt.Sprintf("(declare-fun %s (%s Int) %s)", n, vc.worldSort(), s))
+	return n
 }
 
 // selectInstr: only the non-blocking poll of one receive case is in the subset.
@@ -621,13 +669,14 @@ func (vc *VC) selectInstr(x *ssa.Select) {
 		panic(unsupported("select other than a non-blocking single receive"))
 	}
 	vc.chanFns()
+	et := x.States[0].Chan.Type().Underlying().(*types.Chan).Elem()
 	ch := vc.val(x.States[0].Chan)
 	w := vc.world()
 	// a nil channel is never ready; otherwise readiness is the environment's choice (a function of the world)
 	ready := vc.define(x.Name()+".ready", sBool, and(not(eq(ch, "0")), app("ys.x.ready", w, ch)))
 	idx := vc.define(x.Name()+".idx", sInt, ite(ready, "0", "(- 1)"))
-	val := vc.define(x.Name()+".val", sIface, ite(ready, app("ys.x.recvErr", w, ch), vc.reg.zero(x.States[0].Chan.Type().Underlying().(*types.Chan).Elem())))
-	vc.assumeValid(val, x.States[0].Chan.Type().Underlying().(*types.Chan).Elem())
+	val := vc.define(x.Name()+".val", vc.reg.sortOf(et), ite(ready, app(vc.recvFn(et), w, ch), vc.reg.zero(et)))
+	vc.assumeValid(val, et)
 	vc.setComp(vc.cur, worldComp, vc.worldSort(), ite(ready, app("ys.x.recvW", w, ch), w))
 	vc.tuples[x] = []Term{idx, ready, val}
 }
@@ -638,12 +687,18 @@ func (vc *VC) recv(x *ssa.UnOp) {
 
 func (vc *VC) send(x *ssa.Send) {
 	ch := vc.val(x.Chan)
-	vc.val(x.X)
+	v := vc.val(x.X)
+	et := x.Chan.Type().Underlying().(*types.Chan).Elem()
 	cnt := vc.comp(vc.cur, "H.chancnt", "(Array Int Int)")
 	cp := vc.comp(vc.cur, "H.chancap", "(Array Int Int)")
 	k := vc.ordinal("effect:send")
 	vc.oblige("effect", fmt.Sprintf("send-never-blocks@%d", k), and(not(eq(ch, "0")), app("<", app("select", cnt, ch), app("select", cp, ch))), x.Pos())
 	vc.setComp(vc.cur, "H.chancnt", "(Array Int Int)", app("store", cnt, ch, app("+", app("select", cnt, ch), "1")))
+	// a value sitting in the buffer makes the channel ready, and it is what the next receive delivers
+	// (sequential code; the channel has no other receiver in between)
+	w := vc.world()
+	vc.assume(and(app("ys.x.ready", w, ch), implies(eq(app("select", cnt, ch), "0"), eq(app(vc.recvFn(et), w, ch), v))))
+	vc.assumes["a value sent into a channel's empty buffer is what its next receive delivers (no concurrent receiver)"] = true
 }
 
 // callWrites: components a call inside a loop may modify (from the callee's modifies clauses).
@@ -678,7 +733,7 @@ func (vc *VC) callWrites(x ssa.CallInstruction, compSet map[string]bool) {
 	names = append(names, d.Params...)
 	bind := map[string]binding{}
 	var argTypes []types.Type
-	if c.IsInvoke() {
+	if c.IsInvoke() || info.funcValue {
 		argTypes = append(argTypes, c.Value.Type())
 	}
 	for _, a := range c.Args {
